@@ -393,7 +393,7 @@ pub fn uf(k: u8, l: u8, r: u8) -> u8 { l.wrapping_mul(3).wrapping_add(r ^ k.wrap
 '''
 
 
-def c09_prog(name, op, base_l_ref, base_r_ref, rhs_other, req, generic=False, base_assign=False, self_in_where=None, bound_in_where=False, rhs_spelled_self=False):
+def c09_prog(name, op, base_l_ref, base_r_ref, rhs_other, req, generic=False, base_assign=False, self_in_where=None, bound_in_where=False, rhs_spelled_self=False, req_style="list"):
     """req: subset of {'bin','assign'}; base_assign: the user impl is `impl OpAssign<R> for A`, req must be {'bin'}"""
     k = BINOPS.index(op)
     f = FN[op]
@@ -424,12 +424,18 @@ def c09_prog(name, op, base_l_ref, base_r_ref, rhs_other, req, generic=False, ba
         lst.append(op)
     if "assign" in req:
         lst.append(op + "Assign")
+    # the order of the entries and their distribution over sibling attributes must not matter (req_style: list | list_rev | split | split_rev)
+    if req_style.endswith("_rev"):
+        lst.reverse()
+    sibling = ""
+    if req_style.startswith("split") and len(lst) == 2:
+        sibling = "#[derive_ex(%s)]\n" % lst.pop()
     if base_assign:
         user = ("#[derive_ex::derive_ex(%s)]\nimpl%s core::ops::%sAssign<%s> for %s%s {\n    fn %s_assign(&mut self, rhs: %s) { self.v = uf(%d, self.v, rhs.v); self.c = (self.c << 4) | rhs.c; }\n}\n"
                 % (op, ig, op, rty, LT, wh, f, rty, k))
     else:
-        user = ("#[derive_ex::derive_ex(%s)]\nimpl%s core::ops::%s<%s> for %s%s {\n    type Output = %s;\n    fn %s(self, rhs: %s) -> %s { %s { v: uf(%d, self.v, rhs.v), c: (self.c << 4) | rhs.c%s } }\n}\n"
-                % (", ".join(lst), ig, op, hdr_rty, lty, wh, "Self" if (generic and not base_l_ref) else LT, f, rty, LT, "G" if generic else "A", k, tfield))
+        user = ("#[derive_ex::derive_ex(%s)]\n%simpl%s core::ops::%s<%s> for %s%s {\n    type Output = %s;\n    fn %s(self, rhs: %s) -> %s { %s { v: uf(%d, self.v, rhs.v), c: (self.c << 4) | rhs.c%s } }\n}\n"
+                % (", ".join(lst), sibling, ig, op, hdr_rty, lty, wh, "Self" if (generic and not base_l_ref) else LT, f, rty, LT, "G" if generic else "A", k, tfield))
     wrappers, proofs, replays, harnesses = [], [], [], []
     def add(h, call, exp_v, exp_c):
         post = "r.v == %s && r.c == %s" % (exp_v, exp_c)
@@ -464,10 +470,10 @@ def c09_prog(name, op, base_l_ref, base_r_ref, rhs_other, req, generic=False, ba
             for (ar, ra) in forms:
                 lc = "(x.c + %d)" % (0 if base_l_ref else 1)
                 rc = "(y.c + %d)" % (1 if (ar and not base_r_ref) else 0)
-                add("assign_%s" % ("r" if ar else "v"), "{ let mut a = x.dup(); core::ops::%sAssign::%s_assign(&mut a, %s); a }" % (op, f, ra), ev, "((%s << 4) | %s)" % (lc, rc))
+                add("assign_%s" % ("r" if ar else "v"), "{ let mut a = x.dup(); <%s as core::ops::%sAssign<%s%s>>::%s_assign(&mut a, %s); a }" % (LI, op, "&" if ar else "", RI, f, ra), ev, "((%s << 4) | %s)" % (lc, rc))
     text = user + "\n" + C09_TYPES + "pub trait SameTy2<B: ?Sized> {} impl<A_: ?Sized> SameTy2<A_> for A_ {}\n" + "\n".join(wrappers) + "\n#[cfg(kani)]\npub mod proofs {\n    use super::*;\n%s\n}\n" % "\n".join(proofs)
     text += "pub fn replay(h: &str, b: &[u8]) -> (bool, String) {\n    let mut s = VecSrc { v: b.to_vec(), i: 0 };\n    match h {\n%s\n        _ => (true, String::from(\"unknown harness\")),\n    }\n}\n" % "\n".join(replays)
-    desc = "impl %s%s<%s> for %s%s  derive_ex(%s)" % (op, "Assign" if base_assign else "", hdr_rty, LT if base_assign else lty, wh, ", ".join(lst) if not base_assign else op)
+    desc = "impl %s%s<%s> for %s%s  derive_ex(%s)%s" % (op, "Assign" if base_assign else "", hdr_rty, LT if base_assign else lty, wh, ", ".join(lst) if not base_assign else op, (" + sibling " + sibling.strip()) if sibling else "")
     return Prog(name, text, harnesses, {"describe": desc})
 
 
